@@ -118,3 +118,10 @@ add('C16', 'Hypothesis generated species networks / feeds / conditions + validit
     'object. Exploration only.',
     'Trusted: the reference minimiser of vf/p16.py (cases where it does not converge are excluded and counted); tolerances express the solver tolerance through its second-order effect on G (1e-5 per mole).',
     'DESIGN.md 3/C16')
+add('C15', 'Hypothesis generated workbooks (grid of headers and cells written with openpyxl) + reference mapping from the generated grid to the expected records; second read with reordered rows in the same process',
+    'Worksheets with 1-60 data rows, an optional comment row, any sheet name and a random subset and order of ordinary and special columns (element.X, formula, repeated vib_wavenumber / '
+    'rot_temperature, list.name[.i], dict.name.key, nasa.a_low/a_high.i, statmech_model presets, per-mode model class names), padded headers and string cells, numeric / string / empty cells '
+    'with empty-cell probability up to 0.8: read_excel must return one record per row in row order whose keys and values are exactly what a reference mapping computes from the generated grid '
+    '(walking the columns in sheet order), also when the same rows are read again in reversed order in the same process (no value leaks between rows or calls). Exploration only.',
+    'Trusted: pandas/openpyxl cell semantics (cells they treat as missing or re-type are not generated / compared numerically); the presets table as data.',
+    'DESIGN.md 3/C15')
